@@ -80,6 +80,25 @@ pub fn run(tier: &str, seed: u64, out: &str) {
             }
         }
     }
+    // the DEM entry point itself (public trait `AE`): two encryptions under the *same* key, same plaintext
+    {
+        use cosmian_cover_crypt::traits::AE;
+        use cosmian_crypto_core::{reexport::rand_core::SeedableRng, CsRng, FixedSizeCBytes, SymmetricKey};
+        let mut rng = CsRng::from_entropy();
+        let key = SymmetricKey::<{ Aes256Gcm::KEY_LENGTH }>::try_from_bytes([7u8; 32]).unwrap();
+        let mut nonces = std::collections::HashSet::new();
+        let n_ae = 2000usize;
+        for _ in 0..n_ae {
+            let ctx = <Aes256Gcm as AE<{ Aes256Gcm::KEY_LENGTH }>>::encrypt(&mut rng, &key, b"same plaintext").unwrap();
+            sep_checked += 1;
+            if !nonces.insert(ctx[..12].to_vec()) && sep_fails.len() < 10 {
+                sep_fails.push(serde_json::json!({
+                    "kind": "impl-oracle", "oracle": "freshness", "tags": ["AE nonce under one key"],
+                    "what": format!("two AE::encrypt calls under the same key used the same nonce {}", hex(&ctx[..12])),
+                    "lines": ["ae_encrypt key=07*32 ptx=\"same plaintext\" (twice)"], "case": "ae-nonce"}));
+            }
+        }
+    }
     let per = total / threads;
     let mut hs = vec![];
     for t in 0..threads {
@@ -182,7 +201,7 @@ pub fn run(tier: &str, seed: u64, out: &str) {
         "soft_kind_mismatch": 0, "matrix_cells": 0, "matrix_open": 0,
         "samples": [{"iterations": per * threads, "threads": threads, "instances": 2, "categories": g.counts.keys().collect::<Vec<_>>()}],
         "mismatches": [],
-        "extra": {"rule": format!("{} iterations of identical calls (encaps for a classic and a hybridised policy, re-encapsulation of the result, PKE encryption of the same plaintext, header generation with the same metadata, key generation, rekey of one right) on {} threads over 2 instances; tags, traps, masked seeds, ML-KEM ciphertexts, shared secrets, AEAD nonces, header secrets, user ids and markers, published public values are extracted from the serialised outputs and must be pairwise distinct within and across threads and instances; plus key separation: for 773 choices of authentication data (absent, empty, every one-byte value, 0x00/0x01 followed by every byte, longer ones) the secret returned by EncryptedHeader::generate must not open the encrypted metadata as an AES-256-GCM key; statistical support only (birthday bound 2^-64 for the 96-bit nonces at 10^6 draws is negligible); distinct = distinct extracted values", per * threads, threads),
+        "extra": {"rule": format!("{} iterations of identical calls (encaps for a classic and a hybridised policy, re-encapsulation of the result, PKE encryption of the same plaintext, header generation with the same metadata, key generation, rekey of one right) on {} threads over 2 instances; tags, traps, masked seeds, ML-KEM ciphertexts, shared secrets, AEAD nonces, header secrets, user ids and markers, published public values are extracted from the serialised outputs and must be pairwise distinct within and across threads and instances; plus 2000 direct AE::encrypt calls under one fixed key (nonces pairwise distinct), plus key separation: for 773 choices of authentication data (absent, empty, every one-byte value, 0x00/0x01 followed by every byte, longer ones) the secret returned by EncryptedHeader::generate must not open the encrypted metadata as an AES-256-GCM key; statistical support only (birthday bound 2^-64 for the 96-bit nonces at 10^6 draws is negligible); distinct = distinct extracted values", per * threads, threads),
             "exhaustive": false, "per_line": true, "oracle_failures": fails, "oracle_checked": values + sep_checked, "campaign": "C16", "wall_s": t0.elapsed().as_secs_f64()},
     });
     std::fs::write(out, serde_json::to_string_pretty(&j).unwrap()).unwrap();
